@@ -239,3 +239,84 @@ def replay_max_customers_zero(prop, v):
 
 
 REPLAYS["Simulation.simulate_until_max_customers"] = replay_max_customers_zero
+
+
+def _class_matrix_truth(Q, classes):
+    return [[sum(1 for i in n.all_individuals if i.customer_class == c) for c in classes] for n in Q.transitive_nodes]
+
+
+def replay_class_matrix_after_service_change(prop, v):
+    """whole-run witness: NodeClassMatrix tracker, class change A -> B after service at node 1, run stepped event by
+    event comparing the tracked matrix with the matrix computed from the customers actually present"""
+    ciw = _ciw()
+    N = ciw.create_network(
+        arrival_distributions={'A': [ciw.dists.Deterministic(1.0), None], 'B': [None, None]},
+        service_distributions={'A': [ciw.dists.Deterministic(0.4), ciw.dists.Deterministic(0.3)],
+                               'B': [ciw.dists.Deterministic(0.4), ciw.dists.Deterministic(0.3)]},
+        number_of_servers=[1, 1],
+        routing={'A': [[0.0, 1.0], [0.0, 0.0]], 'B': [[0.0, 1.0], [0.0, 0.0]]},
+        class_change_matrices=[{'A': {'A': 0.0, 'B': 1.0}, 'B': {'A': 0.0, 'B': 1.0}},
+                               {'A': {'A': 1.0, 'B': 0.0}, 'B': {'A': 0.0, 'B': 1.0}}])
+    ciw.seed(0)
+    Q = ciw.Simulation(N, tracker=ciw.trackers.NodeClassMatrix())
+    for k in range(12):
+        node = Q.find_next_active_node()
+        Q.current_time = node.next_event_date
+        node.have_event()
+        for nd in Q.transitive_nodes:
+            nd.update_next_event_date()
+        truth = _class_matrix_truth(Q, ['A', 'B'])
+        if Q.statetracker.state != truth:
+            return dict(confirmed=True, kind="whole-run",
+                        transcript=f"2 nodes, class change A->B after service at node 1, NodeClassMatrix tracker: after event {k + 1} "
+                                   f"(t={Q.current_time}) the tracker holds {Q.statetracker.state} but the customers present give {truth}",
+                        input=dict(events=k + 1))
+    return dict(confirmed=False, kind="whole-run", transcript="tracked matrix equalled the configuration after each of 12 events")
+
+
+REPLAYS["NodeClassMatrix.change_state_release"] = replay_class_matrix_after_service_change
+
+
+def replay_accept_dispatch(prop, v):
+    """Node.accept has two known witnesses: the C17 clause (class the tracker counts under) and the line bookkeeping"""
+    if "C17" in v.get("label", "") or prop == "C17":
+        r = replay_class_matrix_while_waiting_change(prop, v)
+        if r.get("confirmed"):
+            return r
+    return replay_stale_prev_priority(prop, v)
+
+
+def replay_class_matrix_while_waiting_change(prop, v):
+    """whole-run witness: class change A -> B after service at node 1, then B -> C while waiting at node 2"""
+    ciw = _ciw()
+    names = ['A', 'B', 'C']
+    ident = {a: {b: (1.0 if a == b else 0.0) for b in names} for a in names}
+    first = {a: {b: (1.0 if b == 'B' else 0.0) for b in names} for a in names}
+    N = ciw.create_network(
+        arrival_distributions={'A': [ciw.dists.Deterministic(1.0), None], 'B': [None, None], 'C': [None, None]},
+        service_distributions={c: [ciw.dists.Deterministic(0.1), ciw.dists.Deterministic(10.0)] for c in names},
+        number_of_servers=[1, 1],
+        routing={c: [[0.0, 1.0], [0.0, 0.0]] for c in names},
+        class_change_matrices=[first, ident],
+        class_change_time_distributions={'A': {}, 'B': {'C': ciw.dists.Deterministic(1.5)}, 'C': {}})
+    ciw.seed(0)
+    Q = ciw.Simulation(N, tracker=ciw.trackers.NodeClassMatrix())
+    try:
+        for k in range(14):
+            node = Q.find_next_active_node()
+            Q.current_time = node.next_event_date
+            node.have_event()
+            for nd in Q.transitive_nodes:
+                nd.update_next_event_date()
+            truth = _class_matrix_truth(Q, names)
+            if Q.statetracker.state != truth:
+                return dict(confirmed=True, kind="whole-run",
+                            transcript=f"class change A->B after service at node 1, then B->C while waiting at node 2: after event {k + 1} "
+                                       f"(t={Q.current_time}) the NodeClassMatrix tracker holds {Q.statetracker.state}, the customers present give {truth}",
+                            input=dict(events=k + 1))
+    except Exception as e:
+        return dict(confirmed=False, kind="error", transcript=repr(e))
+    return dict(confirmed=False, kind="whole-run", transcript="tracked matrix equalled the configuration after each event")
+
+
+REPLAYS["Node.accept"] = replay_accept_dispatch
